@@ -193,7 +193,8 @@ def bodies(tier):
 def parser_level_selected(descr: str, idx: int, tier: str) -> bool:
     if tier == "thorough":
         return descr in ("A0", "A1f", "A1F", "C1", "Dpad", "Dcont", "Dlong", "E1", "F3", "B2", "Gu", "Gl") and (descr != "A1f" or idx % 8 == 0) and (descr != "B2" or idx % 8 == 0)
-    return descr in ("A0", "A1F", "C1", "Dpad", "Dcont", "Dlong", "Gu", "Gl") or (descr == "F3" and idx % 3 == 0)
+    return (descr in ("A0", "A1F", "C1", "Dpad", "Dcont", "Gu", "Gl") or (descr == "F3" and idx % 3 == 0)
+            or (descr == "Dlong" and idx % 2 == 0))
 
 
 BATCH = 2
